@@ -7,6 +7,7 @@ import (
 	"fmt"
 	"io"
 	"os"
+	"path"
 	"sort"
 	"strconv"
 	"strings"
@@ -28,7 +29,8 @@ func init() {
 		"ChangeOps (one shared clock) with standard output captured, each run under recover. Exhaustive: dry-run x "+
 		"measurement-only x technology subset (SEV, TDX, both) x snapshot dir x candidate name x overwrite x explicit/default "+
 		"VMSA count x existing endorsement file x generated images; plus back-end configurations (none, ec.VCS, ec.VCSs, both), "+
-		"missing key material, SVSM image, machine shapes. Compared: result class and the full effect log. Non-trivial: dry-run "+
+		"missing key material, SVSM image, machine shapes; candidate names that need cleaning or are refused (rooted, climbing) x "+
+		"snapshot x dry-run x measurement-only x retriable verdict. Compared: result class and the full effect log. Non-trivial: dry-run "+
 		"or measurement-only is set and measuring succeeds; distinct by op line.", runC15)
 }
 
@@ -111,6 +113,15 @@ type c15Case struct {
 	vcsMode  string // none one list both
 	exists   bool
 	mread    byte
+	// retriable: what the back end answers when asked about an error the code produced itself
+	retriable bool
+}
+
+// c15Refused: the candidate name, cleaned with Go's package path, is rooted or climbs out of the output
+// directory — defaultGenerateBasename refuses it (manifest mode only; a snapshot run uses no candidate name).
+func c15Refused(cs c15Case) bool {
+	b := path.Clean(endorseBasename(cs.cand))
+	return !cs.snap && (path.IsAbs(b) || strings.HasPrefix(b, "../"))
 }
 
 // captureStdout runs f with os.Stdout redirected and returns what was printed.
@@ -167,7 +178,7 @@ func c15Run(cs c15Case) (c15Result, string) {
 	if cs.svsmImg {
 		ec.SvsmImage = []byte("svsm image")
 	}
-	att := c14Attempt{failAt: -1, exists: cs.exists, mread: cs.mread}
+	att := c14Attempt{failAt: -1, exists: cs.exists, mread: cs.mread, retriable: cs.retriable}
 	if cs.mread == 'M' {
 		att.entries = []mEntry{{"rc7.binarypb", "b1", "1"}}
 	}
@@ -345,7 +356,8 @@ func runC15(c *Ctx) {
 			if isVcs {
 				call = strings.SplitN(e[3:], "@", 2)[0]
 			}
-			if cs.dry && isVcs && call != "result" {
+			if cs.dry && isVcs && call != "result" && !(call == "retriable" && c15Refused(cs)) {
+				// RetriableError about a refused candidate name is a question, not an effect
 				find("dry-run-side-effect/"+call, "with dry-run the back end saw a "+call+" call")
 			}
 			if cs.dry && isVcs && call == "result" && strings.Split(e[3:], "@")[2] == "1" {
@@ -374,7 +386,13 @@ func runC15(c *Ctx) {
 		}
 		keysOK := cs.r.keysMode == "full"
 		backendOK := cs.snap || cs.ow || !cs.exists || cs.vcsMode == "none"
-		if (cs.mo && measOK) || (cs.dry && measOK && keysOK) || (measOK && keysOK && backendOK) {
+		if c15Refused(cs) && cs.vcsMode != "none" {
+			backendOK = false
+			if !cs.mo && measOK && keysOK && res.res == "ok" {
+				find("refused-name-accepted", "a run with a rooted or climbing candidate name reported success")
+			}
+		}
+		if (cs.mo && measOK) || (cs.dry && measOK && keysOK && !(c15Refused(cs) && cs.vcsMode != "none")) || (measOK && keysOK && backendOK) {
 			if res.res != "ok" {
 				find("does-not-complete", "the run failed although measuring, signing and (for a real run) the back end succeed")
 			}
@@ -477,6 +495,21 @@ func runC15(c *Ctx) {
 								}
 							}
 						}
+					}
+				}
+			}
+		}
+	}
+	// ---- candidate names that need cleaning or are refused (rooted, climbing), real and dry ----
+	for _, cand := range []string{"x/../rc0", "sub//rc1", "./rc0/", "é/日本", "/rc0", "../x", "../out/rc0", "a/../../x"} {
+		for _, snap := range []bool{false, true} {
+			for _, retr := range []bool{false, true} {
+				for _, mo := range []bool{false, true} {
+					for _, dry := range []bool{false, true} {
+						r := base
+						r.im, r.snp, r.tdx, r.vm = images[0], true, false, 1
+						cs := c15Case{r: r, mo: mo, dry: dry, snap: snap, cand: cand, budget: 1, vcsMode: "one", mread: 'N', retriable: retr}
+						one(cs, "names")
 					}
 				}
 			}
